@@ -307,6 +307,21 @@ def _edge_keys(beh):
     return out
 
 
+def _nontrivial(beh):
+    """a behaviour decides something only if at least one of its proposals differs from the point it is made from
+    (a proposal y = x is accepted or rejected without any observable difference)"""
+    from cuqiverif.mhkernel_real import split_transitions
+    x = tuple(beh["cfg"]["x0"])
+    for kind, e in split_transitions(beh["prog"]):
+        if kind != "T":
+            continue
+        for p, d in e:
+            if tuple(p["y"]) != x:
+                return True
+            x = tuple(d["x"])
+    return False
+
+
 def select(behs, rnd, limit):
     """every edge (configuration, history class, x, proposal(s), decision class(es)) at least once, then a seeded sample"""
     if limit is None or len(behs) <= limit:
@@ -350,7 +365,7 @@ def replay_facet(ctx, roots, behs, limit):
                 continue                                   # the alternative realisations on a third of the behaviours
             c = b["cfg"]
             ctx.case(("beh", c["k"], c["iface"], c["d"], c["tgt"], c["sc"], c["m"], real,
-                      hashlib.sha1(_cfgkey(b["prog"]).encode()).hexdigest()[:12]), facet="replay")
+                      hashlib.sha1(_cfgkey(b["prog"]).encode()).hexdigest()[:12]), nontrivial=_nontrivial(b), facet="replay")
             done = R.run_behaviour(ctx, b, root["rows"], root["sv"], root, real=real, salt=n)
             ntrans += done
             ctx.traces += 1
@@ -485,8 +500,9 @@ def run(ctx):
         shutil.rmtree(workdir, ignore_errors=True)
     ctx.rule = ("behaviour = one terminal path of the bounded MHKernel instance (configuration x initial point x sequence of "
                 "Propose/Decide/Tune/SaveLoad) emitted by TLC with exact noise, ratio and predicted states; replayed per realisation "
-                "(quick: edge cover + seeded sample of %d; thorough: all + simulated deep behaviours); distinct = behaviour x realisation; "
-                "plus recorded traces" % (limit or len(behs)))
+                "(quick: all; thorough: edge cover + seeded sample of %d, + simulated deep behaviours); distinct = behaviour x "
+                "realisation, non-trivial = at least one proposal differs from the point it is made from; plus recorded traces "
+                "(non-trivial = contains a judged transition)" % (limit or len(behs)))
     ctx.exhaustive = limit is None or len(behs) <= limit      # every behaviour of the bounded emission instance was replayed
     ctx.assumptions += ["acceptance thresholds are placed 1e-6 (relative) below / above exp(r): a ratio error below 1e-6 is not detected",
                         "table targets on finite lattices; off-lattice evaluations use a smooth finite fallback",
